@@ -482,6 +482,26 @@ func fbin(op string, a, b *Term) *Term {
 		return FloatC(s, r)
 	}
 	if RealSimplify {
+		// every non-constant value is finite in the real interpretation, so an
+		// infinite constant absorbs sums and differences
+		if ia, ib := realInf(a), realInf(b); ia != 0 || ib != 0 {
+			switch op {
+			case "fadd":
+				if ia != 0 && ib == 0 {
+					return a
+				}
+				if ib != 0 && ia == 0 {
+					return b
+				}
+			case "fsub":
+				if ia != 0 && ib == 0 {
+					return a
+				}
+				if ib != 0 && ia == 0 {
+					return FloatC(s, -b.F)
+				}
+			}
+		}
 		isC := func(t *Term, v float64) bool { return t.IsConst() && t.F == v }
 		switch op {
 		case "fadd":
